@@ -198,7 +198,9 @@ def jobs(tier, seed):
             for backend in ("iminuit", "scipy"):
                 deas = ["nonlinear"] + (["iterative"] if prob in ("exp-xy", "exp-relm", "exp-xy-relm") else [])
                 for dea in deas:
-                    L = (2 if backend == "iminuit" else 1) if tier == "quick" else (3 if backend == "iminuit" else 2)
+                    L = (2 if backend == "iminuit" else 1) if tier == "quick" else (3 if (backend == "iminuit" and vv == v) else 2)
+                    if tier != "quick" and backend == "scipy" and vv != v:
+                        L = 1
                     qs = queries_for(prob, backend, tier)
                     for first in qs:
                         specs.append((prob, backend, dea, vv, L, first, tier))
@@ -208,7 +210,7 @@ def jobs(tier, seed):
 def bound(tier, seed):
     if tier == "quick":
         return "6 fitted problems (linear, x+y, fixed, limited, model-relative, indexed) x {nonlinear, iterative where dynamic}; iminuit: all query sequences with repetition of length <= 2 over 12 queries; scipy: length 1 without contours; valuation %d" % (seed % 3)
-    return "13 fitted problems; iminuit: all query sequences of length <= 3; scipy: length <= 2 incl. contours; valuations 0,1,2"
+    return "14 fitted problems; iminuit: all query sequences of length <= 3 (one valuation) and <= 2 (the two others) over 15 queries; scipy: length <= 2 incl. contours (one valuation), length 1 (the others)"
 
 
 def run_job(spec):
